@@ -5,11 +5,13 @@ import fcntl, glob, hashlib, json, os, re, shutil, subprocess, sys, time
 VERIF = os.path.dirname(os.path.dirname(os.path.abspath(__file__)))
 REPO = os.environ.get("STIR_REPO", "/repo")
 LEAN = os.path.join(VERIF, "lean")
-BUILD = os.path.join(VERIF, "build")
+# VERIF_BUILD_DIR / VERIF_EVID_DIR / STIR_REPO: used only by the seeded-defect runs (tools/mutrun.py), which build a
+# scratch worktree of /repo into a scratch build directory so that the registered checks' state is not disturbed
+BUILD = os.environ.get("VERIF_BUILD_DIR", os.path.join(VERIF, "build"))
 BIN = os.path.join(BUILD, "bin")
 OUT = os.path.join(BUILD, "out")
-EVID = os.path.join(VERIF, "evidence")
-REPLAYS = os.path.join(VERIF, "replays")
+EVID = os.environ.get("VERIF_EVID_DIR", os.path.join(VERIF, "evidence"))
+REPLAYS = os.path.join(os.environ["VERIF_EVID_DIR"], "replays") if "VERIF_EVID_DIR" in os.environ else os.path.join(VERIF, "replays")
 sys.path.insert(0, os.path.join(VERIF, "tools"))
 import build_stir  # noqa: E402
 
@@ -279,12 +281,12 @@ def lean_gate(chk, prop):
 # --------------------------------------------------------------------------- generic differential run
 
 def run_differential(chk, prop, harness, tier, sanitize=False, extra_args=(), ctx_prefixes=("cfg",), max_report=4,
-                     compare=None, timeout=3000):
+                     compare=None, timeout=3000, flavour="plain"):
     """Pattern used by most properties: the harness (real STIR code) enumerates / generates inputs,
     writes one operation per line to <ops> and its own answer per line to <impl> (and property-oracle
     verdicts to <impl>.oracle); the Lean driver answers the same <ops>; the two answer streams are compared
     line by line (`compare(op, impl, model) -> bool` may implement a tolerance).  Returns a stats dict."""
-    exe = compile_harness(harness, sanitize=sanitize)
+    exe = compile_harness(harness, sanitize=sanitize, flavour=flavour)
     tag = "%s_%s" % (prop.lower(), tier)
     ops = os.path.join(OUT, tag + ".ops")
     impl = os.path.join(OUT, tag + ".impl")
